@@ -39,6 +39,45 @@ structure Config where
   listing : Bool := Gen.defaultListing
   indexFile : Bytes := Gen.defaultIndex
 
+/-! ## the constructor
+
+`file_server::file_server`: the document root and every alias target go through `canonical`
+(`realpath`); an alias url must have at least two bytes and start with `/`, one trailing `/` is
+stripped.  Any failure throws (`none`): the application is never instantiated and nothing is served. -/
+
+/-- the settings as given in the configuration -/
+structure RawConfig where
+  docRoot : Path
+  aliases : List (Path × Path)
+  checkSymlinks : Bool := Gen.defaultCheckSymlink
+  listing : Bool := Gen.defaultListing
+  indexFile : Bytes := Gen.defaultIndex
+
+/-- `if(url[url.size()-1]=='/') url.resize(url.size()-1);` -/
+def stripSlash (url : Bytes) : Bytes :=
+  if url.getLast? == some 47 then url.dropLast else url
+
+/-- the alias loop of the constructor -/
+def constructAliases (fs : Fs) : List (Path × Path) → Option (List (Path × Path))
+  | [] => some []
+  | (url, p) :: rest =>
+    if url.length < 2 || url.head? != some 47 then none          -- "Invalid alias URL"
+    else match fs.realpath (cstr p) with
+      | none => none                                              -- "Invalid alias path"
+      | some cp =>
+        match constructAliases fs rest with
+        | none => none
+        | some l => some ((stripSlash url, cp) :: l)
+
+def construct (fs : Fs) (raw : RawConfig) : Option Config :=
+  match fs.realpath (cstr raw.docRoot) with
+  | none => none                                                  -- "Invalid document root"
+  | some root =>
+    match constructAliases fs raw.aliases with
+    | none => none
+    | some al => some { docRoot := root, aliases := al, checkSymlinks := raw.checkSymlinks,
+                        listing := raw.listing, indexFile := raw.indexFile }
+
 /-! ## normalize_path -/
 
 /-- the pieces between successive `std::find(start,end,'/')` hits (at least one piece) -/
